@@ -105,6 +105,37 @@ impl<'a> UserModel<'a> {
         is_cut: bool,
     ) -> Result<(), String> {
         let mut diff_list = Vec::new();
+        match self.paste_from_clipboard_into(
+            source_sheet,
+            source_range,
+            clipboard,
+            is_cut,
+            &mut diff_list,
+        ) {
+            Ok((selected_row, selected_column, max_row, max_column)) => {
+                self.push_diff_list(diff_list);
+                // select the pasted area
+                self.set_selected_range(selected_row, selected_column, max_row, max_column)?;
+                self.evaluate_if_not_paused();
+                Ok(())
+            }
+            Err(e) => {
+                // A paste that fails half way is not recorded: take back what it already did
+                self.rollback(&diff_list);
+                self.evaluate_if_not_paused();
+                Err(e)
+            }
+        }
+    }
+
+    fn paste_from_clipboard_into(
+        &mut self,
+        source_sheet: u32,
+        source_range: ClipboardTuple,
+        clipboard: &ClipboardData,
+        is_cut: bool,
+        diff_list: &mut Vec<Diff>,
+    ) -> Result<(i32, i32, i32, i32), String> {
         let view = self.get_selected_view();
         let (source_first_row, source_first_column, source_last_row, source_last_column) =
             source_range;
@@ -527,11 +558,7 @@ impl<'a> UserModel<'a> {
                 });
             }
         }
-        self.push_diff_list(diff_list);
-        // select the pasted area
-        self.set_selected_range(selected_row, selected_column, max_row, max_column)?;
-        self.evaluate_if_not_paused();
-        Ok(())
+        Ok((selected_row, selected_column, max_row, max_column))
     }
 
     /// Paste a csv-string into the model
@@ -613,11 +640,12 @@ impl<'a> UserModel<'a> {
                 old_value,
             });
         }
-        self.model.range_clear_contents(&paste_area)?;
-
-        // Second pass: write values and build diff list.
+        // Second pass: write values and build diff list. A paste that fails half way
+        // is not recorded: what it already did is taken back.
         let mut row = area.row;
         let mut last_column = area.column;
+        let result = (|| -> Result<(), String> {
+        self.model.range_clear_contents(&paste_area)?;
         for row_data in &records {
             let mut column = area.column;
             for value in row_data {
@@ -641,6 +669,13 @@ impl<'a> UserModel<'a> {
             }
             last_column = last_column.max(column - 1);
             row += 1;
+        }
+        Ok(())
+        })();
+        if let Err(e) = result {
+            self.rollback(&diff_list);
+            self.evaluate_if_not_paused();
+            return Err(e);
         }
         self.push_diff_list(diff_list);
         // Select the pasted area when it is on the selected sheet. The paste has
